@@ -607,7 +607,7 @@ def _prim_tabulate(ctx) -> None:
     import math
     glob = {**funcs, "$globals": {**consts, "math": minieval.Stub(floor=math.floor), "ValueError": ValueError}}
     deep = ctx.tier == "thorough"
-    years = list(range(1, 10000)) if deep else list(range(1, 2801)) + [9999]
+    years = list(range(1, 10000)) if deep else list(range(1, 402)) + list(range(1583, 2402)) + [2800, 9999]      # the Gregorian calendar repeats every 400 years
 
     def tab(name, cases, want, show):
         if name not in funcs:
@@ -633,7 +633,7 @@ def _prim_tabulate(ctx) -> None:
     tab("is_leap", [(y,) for y in years], lambda y: calendar.isleap(y), lambda a: f"is_leap({a[0]})")
     tab("days_in_year", [(y,) for y in years], lambda y: 366 if calendar.isleap(y) else 365, lambda a: f"days_in_year({a[0]})")
     tab("is_long_year", [(y,) for y in years], lambda y: _dt.date(y, 12, 28).isocalendar()[1] == 53, lambda a: f"is_long_year({a[0]})")
-    wd_cases = [(y, mo, d) for y in list(range(1, 2801, 7)) + [9999] for mo in range(1, 13) for d in (1, 28, calendar.monthrange(y, mo)[1])]
+    wd_cases = [(y, mo, d) for y in list(range(1, 2801, 7 if deep else 23)) + [9999] for mo in range(1, 13) for d in (1, 28, calendar.monthrange(y, mo)[1])]
     for y in (range(1900, 2101) if deep else (1999, 2000, 2001, 2024)):
         wd_cases += [(y, mo, d) for mo in range(1, 13) for d in range(1, calendar.monthrange(y, mo)[1] + 1)]
     if deep:
@@ -725,8 +725,8 @@ def _rs_prim_tabulate(ctx, mir) -> None:
                       "p": lambda y: rs("p", y), "is_leap": lambda y: rs("helpers::is_leap", y), "is_long_year": lambda y: rs("helpers::is_long_year", y),
                       "days_in_year": lambda y: rs("helpers::days_in_year", y), "from": lambda x: x, "usize": int, "i32": int, "u32": int}}
     deep = ctx.tier == "thorough"
-    years = list(range(1, 10000)) if deep else list(range(1, 2801)) + [9999]
-    wd_cases = [(y, mo, d) for y in list(range(1, 2801, 7)) + [9999] for mo in range(1, 13) for d in (1, 28, calendar.monthrange(y, mo)[1])]
+    years = list(range(1, 10000)) if deep else list(range(1, 402)) + list(range(1583, 2402)) + [2800, 9999]      # the Gregorian calendar repeats every 400 years
+    wd_cases = [(y, mo, d) for y in list(range(1, 2801, 7 if deep else 23)) + [9999] for mo in range(1, 13) for d in (1, 28, calendar.monthrange(y, mo)[1])]
     for y in (range(1900, 2101) if deep else (1999, 2000, 2001, 2024)):
         wd_cases += [(y, mo, d) for mo in range(1, 13) for d in range(1, calendar.monthrange(y, mo)[1] + 1)]
     for nm, cases, want in (("helpers::is_leap", [(y,) for y in years], lambda y: calendar.isleap(y)),
